@@ -47,6 +47,89 @@ CHECKS = {
             'No counterexample among generated assembly histories; exploration.',
             'Cycles are outside the domain; acceptance of each declaration is observed, not predicted.',
             'DESIGN.md §4 C20'),
+    'C01': ('Hypothesis-generated valid powertrains + histories; per-instant invariant over the recorded trace with '
+            'ratios recomputed from the case',
+            'Every recorded instant x every adjacent pair x {position, speed, acceleration} of every generated '
+            'simulation satisfies the ratio relation; exploration over models and histories.',
+            'Ratios from vp/model.py; tolerance 1e-9 relative; generator keeps k*dt in 0.02..1.2 so values stay finite.',
+            'DESIGN.md §4 C01'),
+    'C02': ('Hypothesis-generated powertrains with recording load function and duty-cycle histories; per-instant '
+            'invariants (motor law, downstream/upstream propagation, external load at recorded state, net torque)',
+            'No counterexample at any recorded instant of any generated simulation; the load oracle is evaluated on the '
+            'recorded position/speed/time, so stale arguments are visible; exploration.',
+            'vp/model.py (efficiencies incl. worm friction formula), vp/oracle/motor.py; tolerances 1e-9 / 64 eps.',
+            'DESIGN.md §4 C02'),
+    'C03': ('Hypothesis-generated powertrains; per-instant equation of motion with independently reduced inertia and '
+            'step-by-step re-integration of the recorded trace',
+            'No counterexample at any recorded instant / pair of consecutive instants; exploration.',
+            'Documented inertia reduction in vp/model.py; held instants (all speeds and accelerations exactly 0 in a '
+            'self-locking powertrain) are exempt from the acceleration relation and judged by C13.',
+            'DESIGN.md §4 C03'),
+    'C04': ('Hypothesis-generated linear models simulated at four geometrically refined steps vs the closed-form '
+            'exponential solution; error bound at every instant and error-halving ratio',
+            'No counterexample among generated linear models; first-order convergence observed on a finite sequence of '
+            'steps (not the limit); exploration.',
+            'Closed form and Euler error constants; k from the case.',
+            'DESIGN.md §4 C04'),
+    'C07': ('metamorphic testing: every input quantity re-expressed in Hypothesis-drawn units with exact rational '
+            'factors; outcome class and SI traces of the two executions compared; constructor arguments in every unit',
+            'No counterexample among generated (model, unit assignment) pairs; every unit of every kind is drawn as an '
+            'input; exploration.',
+            'Near-threshold policy (decisions within 1e-6 of a threshold are only compared for outcome class); soft '
+            'position loads; mated gears carry identical module/helix numbers in the base case.',
+            'DESIGN.md §4 C07'),
+    'C09': ('exhaustive teeth numbers and optional-data subsets + Hypothesis-generated gear pairs vs independent '
+            'formulas and own copies of the Lewis / worm tables',
+            'Lewis factor for every teeth number 10..600 (spur, and helical at 8 helix angles) and every optional-data '
+            'subset of both mates are covered completely; magnitudes/units sampled; exploration.',
+            'vp/oracle/gears.py (tan-form base helix angle; worm gear force with tan(beta) as in worked example 7).',
+            'DESIGN.md §4 C09'),
+    'C11': ('Hypothesis-generated decimal steps m*10^-e in all time units, fresh and continued runs, vs the exact '
+            'rational grid',
+            'No counterexample among generated (dt, n, unit, T-form) tuples (~1% of the 8e6-point finite domain per '
+            'thorough run; not exhaustive); exploration.',
+            'T is a multiple of dt; inertia chosen from dt so trajectories stay finite.',
+            'DESIGN.md §4 C11'),
+    'C12': ('differential testing of schedules: split vs single run (bit-identical for dyadic steps) and reset+rerun '
+            'vs first epoch (bit-identical), Hypothesis-generated models emphasising held self-locking states',
+            'No counterexample among generated (model, schedule) pairs; exploration over histories.',
+            'Initial conditions re-applied after reset = position, speed of the last element and the initial duty '
+            'cycle; near-threshold policy for decimal steps.',
+            'DESIGN.md §4 C12'),
+    'C13': ('Hypothesis-generated worm powertrains on both sides of the self-locking criterion under loads up to 100x '
+            'stall and sign-changing duty cycles; reference lock state machine replayed over the recorded values',
+            'No counterexample at any instant of any generated simulation (safety invariant, held-state invariants, '
+            'release rule, no clamp in free powertrains); exploration.',
+            'Decisions within 1e-9 of a threshold resynchronise on the observation.',
+            'DESIGN.md §4 C13'),
+    'C14': ('Hypothesis-generated rule sets with stub rules (None, out-of-range, exact +-1) - direct arbitration calls '
+            'and whole simulations with overlapping windows',
+            'No counterexample among generated rule sets / simulations; exploration.',
+            'Proposals of built-in rules are taken from their own apply() (C15 judges them); NaN proposals excluded.',
+            'DESIGN.md §4 C14'),
+    'C15': ('Hypothesis-generated rule parameters and states on both sides of every window boundary (exact binary '
+            'boundaries included) vs documented formulas; StartLimitCurrent root verified through the motor law; '
+            'simulation-level consequence (recorded current = limit)',
+            'No counterexample among generated (rule, state) pairs and controlled simulations; exploration.',
+            'vp/oracle/rules.py; overall efficiency = product of all mating efficiencies (as documented).',
+            'DESIGN.md §4 C15'),
+    'C16': ('differential testing: stopped run vs un-stopped run of the same Hypothesis-generated case, threshold '
+            'derived from a quantile of the un-stopped series; exact-tie cases',
+            'No counterexample among generated (model, sensor, operator, threshold) tuples; exploration.',
+            'Readings within 1e-9 of the threshold are not judged unless the tie is exact.',
+            'DESIGN.md §4 C16'),
+    'C17': ('exhaustive product of optional-data subsets x 5 histories on small topologies + Hypothesis-generated '
+            'chains; invariant after every operation',
+            'Every optional-data configuration of the small topologies is covered completely for five histories; longer '
+            'chains sampled; exploration.',
+            'Documented refusals (contact stress with an incomplete mate) are classified, not judged.',
+            'DESIGN.md §4 C17'),
+    'C18': ('Hypothesis-generated simulations with snapshots at / between instants in every time unit, every variable '
+            'subset (exhaustive in thorough) and CSV round trip vs the recorded history converted with the SI table',
+            'All 2047 variable subsets are covered in the thorough tier (every 10th in quick); models, targets and '
+            'units sampled; exploration.',
+            'Column order unspecified; interpolation tolerance 1e-9.',
+            'DESIGN.md §4 C18'),
 }
 
 NOT_YET = {
